@@ -4,7 +4,9 @@ _BASE = (
   "Trusted base: T1 int32 as mathematical Int; T2 float32 as Real (exact-over-the-reals claims only); T3 wp.* builtin table; "
   "T4 allocator axiom for atomic counters; python/Warp dialect semantics as implemented by wpv (sym.py, loops.py, hostexec.py); "
   "SMT solvers sound. The verified text is re-extracted from /repo on every run (docstrings, comments, wp.printf and decorator "
-  "arguments dropped). "
+  "arguments dropped). Replay: ./check <id> --replay <file> re-generates and re-discharges the failed obligation on the current "
+  "source; counter-models of C13/C14/C15 are additionally replayed on the real API (scenarios/replay_native.py), all other "
+  "VIOLATION lines end with no-failing-input-found (DESIGN.md 12.2). "
 )
 
 CLAIMS = {
